@@ -210,84 +210,164 @@ def sec_pose(rec, quats=(), shape=(5, 5, 5), entry="single", patches=None):
             rec.fact(f"{tag}/path{pi}/output-shape", tuple(new.output_shape) == tuple(shape), key=f"C01/{entry}/output-shape", detail={})
 
 
+def replay_units(cex):
+    """installed library: max_shifts in nm bounds the displacement written back, for every loader entry point, scales != 1 and groups of loaders with different scales"""
+    from acryo import SubtomogramLoader, Molecules
+    from acryo.loader._group import LoaderGroup
+    from acryo.alignment import ZNCCAlignment
+    from scipy import ndimage as ndi
+
+    rng = np.random.default_rng(3)
+    size = 9
+    zz = np.indices((size,) * 3).astype(float)
+    tmpl = sum(np.exp(-sum((zz[a] - c[a]) ** 2 for a in range(3)) / 2.0) for c in rng.uniform(2.5, 5.5, size=(4, 3))).astype(np.float32)
+    tmpl2 = tmpl[::-1].copy()
+    bad = []
+
+    def tomo(offs):
+        vol = rng.normal(size=(40, 40, 40)).astype(np.float32) * 0.01
+        for c, d in zip(((12, 12, 12), (26, 26, 26)), offs):
+            z, y, x = (int(v) - size // 2 for v in c)
+            vol[z:z + size, y:y + size, x:x + size] += ndi.shift(tmpl, d, order=1)
+        return vol
+
+    offs = [(3, -3, 3), (-3, 3, -3)]  # pixels: larger than max_shifts/scale below
+    msh = 1.0  # nm
+    for scales in ((0.5,), (2.0,), (0.5, 2.0), (2.0, 0.5)):
+        loaders = []
+        for sc in scales:
+            mol = Molecules(np.array([[12, 12, 12], [26, 26, 26]], dtype=np.float32) * sc)
+            loaders.append(SubtomogramLoader(tomo(offs), mol, order=1, scale=sc, output_shape=(size,) * 3))
+        runs = {}
+        if len(scales) == 1:
+            ld = loaders[0]
+            runs["align"] = lambda: [ld.align(tmpl, max_shifts=msh, alignment_model=ZNCCAlignment)]
+            runs["align(list of templates)"] = lambda: [ld.align([tmpl, tmpl2], max_shifts=msh, alignment_model=ZNCCAlignment)]
+            runs["align_multi_templates"] = lambda: [ld.align_multi_templates([tmpl, tmpl2], max_shifts=msh, alignment_model=ZNCCAlignment)]
+            runs["align_no_template"] = lambda: [ld.align_no_template(max_shifts=msh, alignment_model=ZNCCAlignment)]
+        else:
+            grp = LoaderGroup([(i, l) for i, l in enumerate(loaders)])
+            runs["group.align"] = lambda: [l for _, l in grp.align(tmpl, max_shifts=msh, alignment_model=ZNCCAlignment)]
+            runs["group.align_multi_templates"] = lambda: [l for _, l in grp.align_multi_templates({i: [tmpl, tmpl2] for i in range(len(loaders))}, max_shifts=msh, alignment_model=ZNCCAlignment)]
+        for name, fn in runs.items():
+            try:
+                outs = fn()
+            except Exception as e:
+                bad.append({"entry": name, "scales": list(scales), "raised": repr(e)[:150]})
+                continue
+            for l0, l1 in zip(loaders, outs):
+                d = np.abs(np.asarray(l1.molecules.pos, dtype=float) - np.asarray(l0.molecules.pos, dtype=float)).max()
+                if d > msh * 1.001 + 1e-6:  # identity orientations: the bound applies per axis
+                    bad.append({"entry": name, "scales": list(scales), "scale": l0.scale, "max_shifts_nm": msh, "moved_nm": float(d)})
+    return len(bad) > 0, {"n": len(bad), "examples": bad[:4]}
+
+
 def sec_units(rec, patches=None):
-    """LoaderBase.align / align_multi_templates / LoaderGroup.align hand max_shifts/scale, pos/scale and the molecule quaternions to the model"""
+    """every loader entry point hands max_shifts/scale, pos/scale and the molecule quaternions to the model -- with the scale of the loader the molecules belong to"""
     L = _load(patches)
     B = L["acryo.alignment._base"]
     G = L["acryo.loader._group"]
-    rec.encodes("acryo/loader/_base.py:LoaderBase.align (unit conversion, routing)", "acryo/loader/_base.py:LoaderBase.align_multi_templates (unit conversion)",
-                "acryo/loader/_group.py:LoaderGroup.align (unit conversion)", "acryo/loader/_base.py:_normalize_max_shifts")
-    scale = real("scale")
+    rec.encodes("acryo/loader/_base.py:LoaderBase.align (unit conversion, routing to align_multi_templates)", "acryo/loader/_base.py:LoaderBase.align_multi_templates (unit conversion)",
+                "acryo/loader/_base.py:LoaderBase.align_no_template (unit conversion)", "acryo/loader/_group.py:LoaderGroup.align (unit conversion)",
+                "acryo/loader/_group.py:LoaderGroup.align_multi_templates (unit conversion)", "acryo/loader/_group.py:LoaderGroup.align_no_template (unit conversion)", "acryo/loader/_base.py:_normalize_max_shifts")
+    scales = [real("scale"), real("scale2")]
     m = [real(f"m{a}") for a in range(3)]
     P = [[real(f"p{i}{a}") for a in range(3)] for i in range(2)]
-    hyps = [scale.e > 0]
+    hyps = [s_.e > 0 for s_ in scales]
     qa, qb = rotation.R30[9], rotation.R30[10]
-    for entry in ("align", "align-scalar", "multi", "group"):
-        cap = {}
+    for entry in ("align", "align-scalar", "align-list", "multi", "no-template", "group", "group-multi", "group-no-template"):
+        caps = []
+        hetero = entry == "align-list"
 
         class Model:
             input_shape = (5, 5, 5)
-            has_hetero_templates = False
-            template = None
+            has_hetero_templates = hetero
+            has_rotation = False
+            template = ["T", "T"]
 
             def align(self, *a, **k):
                 raise AssertionError("not executed")
 
         model = Model()
+        nld = 2 if entry.startswith("group") else 1
 
         def run():
-            cap.clear()
-            ld = _make_loader(L, P, rotation.SymRotation([list(qa), list(qb)]), scale, {"g": [0, 0]} if entry == "group" else None)
-            ld.normalize_template = lambda t, allow_multiple=False: t
-            ld.normalize_mask = lambda mk: mk
+            del caps[:]
+            lds = []
+            for k in range(nld):
+                ld = _make_loader(L, P, rotation.SymRotation([list(qa), list(qb)]), scales[k], {"g": [0, 0]} if entry.startswith("group") else None)
+                ld.normalize_template = lambda t, allow_multiple=False: t
+                ld.normalize_mask = lambda mk: mk
 
-            class Tasks:
-                def compute(self):
-                    return []
+                class Tasks:
+                    def compute(self):
+                        return []
 
-                def _as_dask_list(self):
-                    return self
+                    def _as_dask_list(self):
+                        return self
 
-            def cmt(func, *a, **kw):
-                cap["func"], cap["kw"] = func, kw
-                return Tasks()
+                def cmt(func, *a, _k=k, **kw):
+                    caps.append((_k, func, kw))
+                    return Tasks()
 
-            ld.construct_mapping_tasks = cmt
-            ld._post_align = lambda results, shape: ("POST", shape)
-            ld._post_align_multi_templates = lambda results, shape, rem, name: ("POSTM", shape)
+                ld.construct_mapping_tasks = cmt
+                ld._post_align = lambda results, shape: ("POST", shape)
+                ld._post_align_multi_templates = lambda results, shape, rem, name: ("POSTM", shape)
+                ld.average = lambda *a, **k: "AVG"
+                lds.append(ld)
+            ld = lds[0]
             fac = lambda *a, **k: model  # noqa: E731
             if entry == "align":
                 ld.align("T", max_shifts=tuple(m), alignment_model=fac)
             elif entry == "align-scalar":
                 ld.align("T", max_shifts=m[0], alignment_model=fac)
+            elif entry == "align-list":
+                ld.align(["T", "T"], max_shifts=tuple(m), alignment_model=fac)
             elif entry == "multi":
                 ld.align_multi_templates(["T", "T"], max_shifts=tuple(m), alignment_model=fac)
+            elif entry == "no-template":
+                ld.align_no_template(max_shifts=tuple(m), alignment_model=fac)
             else:
-                G.compute = lambda all_tasks: [[]]
-                G.LoaderGroup([("k", ld)]).align("T", max_shifts=tuple(m), alignment_model=fac)
-            return dict(cap)
+                G.compute = lambda all_tasks: [[] for _ in all_tasks]
+                grp = G.LoaderGroup([(f"k{k}", l_) for k, l_ in enumerate(lds)])
+                if entry == "group":
+                    grp.align("T", max_shifts=tuple(m), alignment_model=fac)
+                elif entry == "group-multi":
+                    grp.align_multi_templates({f"k{k}": ["T", "T"] for k in range(nld)}, max_shifts=tuple(m), alignment_model=fac)
+                else:
+                    grp.average = lambda *a, **k: {f"k{k}": "AVG" for k in range(nld)}
+                    grp.align_no_template(max_shifts=tuple(m), alignment_model=fac)
+            return list(caps)
 
         for pi, p in enumerate(explore(run, assumptions=hyps)):
             if not p.ok:
-                rec.fact(f"units[{entry}]/runs", False, key="C01/units/raises", detail={"exc": repr(p.exc)[:300]})
+                ok, det = replay_units({})
+                rec.fact(f"units[{entry}]/runs", False, key="C01/units/raises", detail={"exc": repr(p.exc)[:300], **det}, reproduced=ok)
                 continue
-            kw = p.result["kw"]
+            got = p.result
             h = hyps + [p.condition()]
-            ms = kw.get("max_shifts")
-            okf = getattr(p.result["func"], "__func__", None) is Model.align and kw.get("output_shape") == (5, 5, 5) and ms is not None and len(ms) == 3
-            rec.fact(f"units[{entry}]/model.align-mapped-with-input-shape", bool(okf), key="C01/units/plumbing", detail={"kw": repr(kw)[:200]})
-            if not okf:
+            okn = len(got) == nld and sorted(k for k, _, _ in got) == list(range(nld))
+            rec.fact(f"units[{entry}]/one-mapping-per-loader", okn, key="C01/units/plumbing", detail={"n": len(got)}, reproduced=True if okn else replay_units({})[0])
+            if not okn:
                 continue
-            for a in range(3):
-                want = (m[0] if entry == "align-scalar" else m[a]).e / scale.e
-                rec.query(f"units[{entry}]/max_shifts{a}-in-pixels", h, zr(ms[a]) == want, key="C01/units/max_shifts", names={"scale"} | {f"m{b}" for b in range(3)})
-            vk = kw.get("var_kwarg") or {}
-            pos, quat = vk.get("pos"), vk.get("quaternion")
-            for i in range(2):
+            for k, func, kw in got:
+                sc = scales[k]
+                ms = kw.get("max_shifts")
+                okf = getattr(func, "__func__", None) is Model.align and kw.get("output_shape") == (5, 5, 5) and ms is not None and len(ms) == 3
+                rec.fact(f"units[{entry}]/loader{k}/model.align-mapped-with-input-shape", bool(okf), key="C01/units/plumbing", detail={"kw": repr(kw)[:200]})
+                if not okf:
+                    continue
                 for a in range(3):
-                    rec.query(f"units[{entry}]/pos{i}{a}-in-pixels", h, zr(pos[i, a]) == P[i][a].e / scale.e, key="C01/units/pos")
-            okq = all(Fraction(_coerce(quat[i, c])) == Fraction((qa, qb)[i][c]) for i in range(2) for c in range(4))
-            rec.fact(f"units[{entry}]/quaternion-of-molecule-k", okq, key="C01/units/quaternion", detail={})
+                    want = (m[0] if entry == "align-scalar" else m[a]).e / sc.e
+                    rec.query(f"units[{entry}]/loader{k}/max_shifts{a}-in-pixels-of-this-loader", h, zr(ms[a]) == want, key="C01/units/max_shifts", names={"scale", "scale2"} | {f"m{b}" for b in range(3)}, replay=replay_units,
+                              nonlinear=True)
+                vk = kw.get("var_kwarg") or {}
+                pos, quat = vk.get("pos"), vk.get("quaternion")
+                for i in range(2):
+                    for a in range(3):
+                        rec.query(f"units[{entry}]/loader{k}/pos{i}{a}-in-pixels", h, zr(pos[i, a]) == P[i][a].e / sc.e, key="C01/units/pos", nonlinear=True)
+                okq = all(Fraction(_coerce(quat[i, c])) == Fraction((qa, qb)[i][c]) for i in range(2) for c in range(4))
+                rec.fact(f"units[{entry}]/loader{k}/quaternion-of-molecule-k", okq, key="C01/units/quaternion", detail={})
 
 
 def sections(tier):
